@@ -1,144 +1,77 @@
-import Std.Data.HashMap
 import Percival.Driver.Loop
-import Percival.Spec.PQ
-/-! `pmodel heapmon`: the C13 monitor — judges the *implementation's* answers by `Spec.PQ`. -/
+import Percival.Spec.PQMonStep
+/-! `pmodel heapmon`: the C13 monitor — judges the *implementation's* answers by `Spec.PQ`.  Thin by
+construction: the operation line and the answer line are parsed into typed values, `Spec.PQ.monStepX`
+gives the verdict (`Properties/C13.lean`: `run_ops_accepted` — the model's own answers are accepted for
+every operation sequence), and the verdict is printed. -/
 namespace Percival.Driver.Heapmon
-open Percival.Driver Percival.Spec
+open Percival.Driver Percival.Spec.PQ
 
-structure St where
-  keys : Std.HashMap Nat Int := {}
-  live : List Nat := []
-  -- timer queue: record id ↦ (time key, ptr), live records
-  qrec : Std.HashMap Nat (Int × Int × Nat) := {}
-  qlive : List Nat := []
-
-def keyFn (m : Std.HashMap Nat Int) (e : Nat) : Int := m.getD e 0
-def tvKey (sec usec : Int) : Int := sec * 2^64 + (usec + 2^63)
-def qkey (m : Std.HashMap Nat (Int × Int × Nat)) (r : Nat) : Int :=
-  match m.get? r with | some (s, u, _) => tvKey s u | none => 0
-
-def parsePairs (s : String) : List (Nat × Int) :=
-  if s = "-" then [] else
-  (s.splitOn ",").filterMap fun t =>
+def parsePairs (s : String) : Option (List (Nat × Int)) :=
+  if s = "-" then some [] else
+  (s.splitOn ",").mapM fun t =>
     match t.splitOn ":" with
-    | [a, b] => match a.toNat?, b.toInt? with
-      | some x, some y => some (x, y)
-      | _, _ => none
+    | [a, b] => do pure (← a.toNat?, ← b.toInt?)
     | _ => none
 
 def parseIds (s : String) : Option (List Nat) :=
   if s = "-" then some [] else (s.splitOn ",").mapM String.toNat?
 
-def verdict (b : Bool) (why : String) : String := if b then "ok" else "bad " ++ why
+def parseOp : List String → Option XOpI
+  | ["create", ps] => do pure (.h (.create (← parsePairs ps)))
+  | ["add", e, k] => do pure (.h (.add (← e.toNat?) (← k.toInt?)))
+  | ["getmin"] => some (.h .getmin)
+  | ["delmin"] => some (.h .delmin)
+  | ["del", e] => do pure (.h (.del (← e.toNat?)))
+  | ["inc", e, k] => do pure (.h (.inc (← e.toNat?) (← k.toInt?)))
+  | ["dec", e, k] => do pure (.h (.dec (← e.toNat?) (← k.toInt?)))
+  | ["incmin", k] => do pure (.h (.incmin (← k.toInt?)))
+  | ["drain"] => some (.h .drain)
+  | ["t_add", r, sec, usec, ptr] => do pure (.t (.op (.add (← r.toNat?) (← sec.toInt?) (← usec.toInt?) (← ptr.toNat?))))
+  | ["t_del", r] => do pure (.t (.op (.del (← r.toNat?))))
+  | ["t_inc", r, sec, usec] => do pure (.t (.op (.inc (← r.toNat?) (← sec.toInt?) (← usec.toInt?))))
+  | ["t_min"] => some (.t (.op .getmin))
+  | ["t_get", sec, usec] => do pure (.t (.op (.get (← sec.toInt?) (← usec.toInt?))))
+  | ["t_drain"] => some (.t .drain)
+  | _ => none
 
-def step (s : St) (op ans : List String) : St × String :=
-  match op, ans with
-  | ["create", ps], ["ok"] =>
-      let pairs := parsePairs ps
-      ({ s with keys := pairs.foldl (fun m p => m.insert p.1 p.2) s.keys, live := pairs.map (·.1) }, "ok")
-  | ["add", e, k], a =>
-      match e.toNat?, k.toInt? with
-      | some e, some k =>
-        if s.live.contains e then (s, verdict (a = ["skip"]) "add of a live id must be skipped")
-        else if a = ["ok"] then ({ s with keys := s.keys.insert e k, live := e :: s.live }, "ok")
-        else (s, "bad add failed")
-      | _, _ => (s, "bad op")
-  | ["getmin"], ["min", r] =>
-      let r' := if r = "none" then some none else r.toNat?.map some
-      match r' with
-      | some r' => (s, verdict (PQ.getminOk (keyFn s.keys) s.live r') s!"getmin answered {r} which is not a least live element")
-      | none => (s, "bad answer")
-  | ["delmin"], a =>
-      match a with
-      | ["skip"] => (s, verdict s.live.isEmpty "deletemin skipped on a non-empty heap")
-      | ["ok", e] => match e.toNat? with
-        | some e => ({ s with live := s.live.erase e }, verdict (PQ.isLeast (keyFn s.keys) s.live e) s!"deletemin removed {e}, not a least element")
-        | none => (s, "bad answer")
-      | _ => (s, "bad answer")
-  | ["del", e], a =>
-      match e.toNat? with
-      | some e =>
-        if !s.live.contains e then (s, verdict (a = ["skip"]) "delete of a dead id must be skipped")
-        else ({ s with live := s.live.erase e }, verdict (a = ["ok"]) "delete failed")
-      | none => (s, "bad op")
-  | [io, e, k], a =>
-      if io = "inc" || io = "dec" then
-        match e.toNat?, k.toInt? with
-        | some e, some k =>
-          let old := keyFn s.keys e
-          if !s.live.contains e || (io = "inc" && k < old) || (io = "dec" && k > old) then
-            (s, verdict (a = ["skip"]) "must be skipped")
-          else ({ s with keys := s.keys.insert e k }, verdict (a = ["ok"]) "failed")
-        | _, _ => (s, "bad op")
-      else if io = "t_get" then
-        match e.toInt?, k.toInt? with
-        | some sec, some usec =>
-          match a with
-          | ["rel", "none"] =>
-              (s, verdict (PQ.getptrOk (qkey s.qrec) s.qlive (tvKey sec usec) none) "getptr released nothing although an entry is due")
-          | ["rel", p] =>
-              match p.toNat? with
-              | some p =>
-                -- the pointer must be the one stored with a live record
-                match s.qlive.find? (fun r => match s.qrec.get? r with | some (_, _, q) => q == p | none => false) with
-                | some r =>
-                  ({ s with qlive := s.qlive.erase r },
-                   verdict (PQ.getptrOk (qkey s.qrec) s.qlive (tvKey sec usec) (some r)) s!"getptr released record {r} which is not least or not due")
-                | none => (s, s!"bad getptr returned pointer {p} which no live entry stores")
-              | none => (s, "bad answer")
-          | _ => (s, "bad answer")
-        | _, _ => (s, "bad op")
-      else (s, "bad op")
-  | ["incmin", k], a =>
-      match k.toInt?, a with
-      | some _, ["skip"] => (s, "ok")   -- harness skips when empty or when k is below the minimum key
-      | some k, ["ok", e] => match e.toNat? with
-        | some e => ({ s with keys := s.keys.insert e k }, verdict (PQ.isLeast (keyFn s.keys) s.live e) "increasemin applied to a non-minimum")
-        | none => (s, "bad answer")
-      | _, _ => (s, "bad answer")
-  | ["drain"], ["drain", ids] =>
-      match parseIds ids with
-      | some ids => ({ s with live := [] }, verdict (PQ.drainOk (keyFn s.keys) s.live ids) "drain is not the live multiset in non-decreasing key order")
-      | none => (s, "bad answer")
-  | ["t_add", r, sec, usec, ptr], a =>
-      match r.toNat?, sec.toInt?, usec.toInt?, ptr.toNat? with
-      | some r, some sec, some usec, some ptr =>
-        if s.qlive.contains r then (s, verdict (a = ["skip"]) "must be skipped")
-        else ({ s with qrec := s.qrec.insert r (sec, usec, ptr), qlive := r :: s.qlive }, verdict (a = ["ok"]) "add failed")
-      | _, _, _, _ => (s, "bad op")
-  | ["t_del", r], a =>
-      match r.toNat? with
-      | some r =>
-        if !s.qlive.contains r then (s, verdict (a = ["skip"]) "must be skipped")
-        else ({ s with qlive := s.qlive.erase r }, verdict (a = ["ok"]) "failed")
-      | none => (s, "bad op")
-  | ["t_inc", r, sec, usec], a =>
-      match r.toNat?, sec.toInt?, usec.toInt? with
-      | some r, some sec, some usec =>
-        match s.qrec.get? r with
-        | some (os, ou, p) =>
-          if !s.qlive.contains r || tvKey sec usec < tvKey os ou then (s, verdict (a = ["skip"]) "must be skipped")
-          else ({ s with qrec := s.qrec.insert r (sec, usec, p) }, verdict (a = ["ok"]) "failed")
-        | none => (s, verdict (a = ["skip"]) "must be skipped")
-      | _, _, _ => (s, "bad op")
-  | ["t_min"], a =>
-      -- the least time among live records
-      let ks := s.qlive.filterMap fun r => s.qrec.get? r
-      let mn := ks.foldl (fun (acc : Option (Int × Int × Nat)) k => match acc with
-                  | none => some k | some b => if tvKey k.1 k.2.1 < tvKey b.1 b.2.1 then some k else some b) none
-      match mn with
-      | some (ms, mu, _) => (s, verdict (a = ["tmin", toString ms, toString mu]) s!"getmin must be {ms} {mu}")
-      | none => (s, verdict (a = ["tmin", "none"]) "getmin must be none")
-  | ["t_drain"], ["tdrain", ps] =>
-      match parseIds ps with
-      | some ps =>
-        -- map pointers back to live records
-        let rs := ps.filterMap fun p => s.qlive.find? (fun r => match s.qrec.get? r with | some (_, _, q) => q == p | none => false)
-        ({ s with qlive := [] },
-         verdict (rs.length == ps.length && PQ.drainOk (qkey s.qrec) s.qlive rs) "timer drain is not the live entries in non-decreasing time order")
-      | none => (s, "bad answer")
-  | _, _ => (s, "bad unexpected answer")
+/-- the implementation's answer to a heap operation -/
+def parseAnsH : List String → Option Ans
+  | ["ok"] => some .ok
+  | ["ok", e] => do pure (.okId (← e.toNat?))
+  | ["min", "none"] => some (.min none)
+  | ["min", e] => do pure (.min (some (← e.toNat?)))
+  | ["skip"] => some .skip
+  | ["precondition"] => some .precondition
+  | ["drain", ids] => do pure (.drained (← parseIds ids))
+  | _ => none
 
-def main (_args : List String) : IO UInt32 := loopMon ({} : St) step
+/-- the implementation's answer to a timer-queue operation -/
+def parseAnsT : List String → Option TAnsI
+  | ["ok"] => some .ok
+  | ["skip"] => some .skip
+  | ["precondition"] => some .precondition
+  | ["tmin", "none"] => some (.tmin none)
+  | ["tmin", s, u] => do pure (.tmin (some (← s.toInt?, ← u.toInt?)))
+  | ["rel", "none"] => some (.rel none)
+  | ["rel", p] => do pure (.rel (some (← p.toNat?)))
+  | ["tdrain", ps] => do pure (.drained (← parseIds ps))
+  | _ => none
+
+def parseAns : XOpI → List String → Option XAnsI
+  | .h _, a => (parseAnsH a).map .h
+  | .t _, a => (parseAnsT a).map .t
+
+def step (s : XMSt) (op ans : List String) : XMSt × String :=
+  match parseOp op with
+  | none => (s, "bad op")
+  | some o =>
+    match parseAns o ans with
+    | none => (s, "bad unexpected answer")
+    | some a =>
+      let r := monStepX s o a
+      (r.1, if r.2 then "ok" else "bad " ++ whyX s o a)
+
+def main (_args : List String) : IO UInt32 := loopMon ({} : XMSt) step
 
 end Percival.Driver.Heapmon
